@@ -39,7 +39,9 @@ func tickRunMain(args []string) int {
 	n := 0
 	for v := 0; v < *forced && !xHung; v++ {
 		for _, sc := range []string{"stopHeld", "restartHeld", "shutdownHeld", "evictHeld", "startTickHeld", "restartOnFail"} {
-			n += tickForced(tf, sc, v)
+			if !xHung {
+				n += tickForced(tf, sc, v)
+			}
 		}
 	}
 	for v := 0; v < 4**forced && !xHung; v++ {
@@ -144,10 +146,23 @@ func (r *tickRun) finish(tf *traceFile, sc string, extraHung ...string) int {
 		hung = append(hung, h)
 	}
 	r.gate.ReleaseAll()
-	if len(hung) == 0 && !r.down.Load() {
-		waitFor(xJoinWait, func() bool { return r.t.QueueSize() <= 0 })
+	// drained = the queue is empty and still empty after the pause in which stray ticks would arrive (a TickerFailed hook
+	// may start the ticker again right after the queue became empty)
+	deadline := time.Now().Add(xJoinWait)
+	for {
+		drained := true
+		if len(hung) == 0 && !r.down.Load() {
+			drained = waitFor(time.Until(deadline), func() bool { return r.t.QueueSize() <= 0 })
+		}
+		time.Sleep(2*r.iv + time.Millisecond)
+		if !drained {
+			xHung = true // a ticker that never ends: the final observation shows it; no further executions
+			break
+		}
+		if len(hung) > 0 || r.down.Load() || r.t.QueueSize() <= 0 {
+			break
+		}
 	}
-	time.Sleep(2*r.iv + time.Millisecond)
 	xHung = xHung || len(hung) > 0
 	has := []int{}
 	for _, id := range tickIDs {
@@ -158,10 +173,12 @@ func (r *tickRun) finish(tf *traceFile, sc string, extraHung ...string) int {
 	sort.Ints(has)
 	r.lg.add(core.Ev{"op": "final", "hung": hung, "has": core.Seq(has), "size": r.t.QueueSize()})
 	n := r.lg.flush(tf.enc, core.Ev{"sc": sc, "iv": int(r.iv / time.Microsecond), "thr": r.thr})
-	if len(hung) == 0 {
-		r.t.Shutdown()
-	} else {
-		go r.t.Shutdown()
+	sd := make(chan struct{})
+	go func() { r.t.Shutdown(); close(sd) }()
+	select {
+	case <-sd:
+	case <-time.After(3 * time.Second):
+		xHung = true // the executor's worker is stuck (e.g. inside a hook): leave it behind, no further executions
 	}
 	return n
 }
@@ -320,7 +337,7 @@ func tickForced(tf *traceFile, sc string, variant int) int {
 func tickDoubleStart(tf *traceFile, rd *rand.Rand, variant int) int {
 	iv := time.Duration(1+variant%2) * time.Millisecond
 	r := newTickRun(iv, 0, variant%3)
-	rounds := 1 + variant%2
+	rounds := 5 + variant%3
 	for k := 0; k < rounds; k++ {
 		var wg, ready sync.WaitGroup
 		startc := make(chan struct{})
@@ -357,7 +374,9 @@ func tickDoubleStart(tf *traceFile, rd *rand.Rand, variant int) int {
 		r.startGid2.Store(int64(0))
 		if k+1 < rounds {
 			// wait for this run of the ticker to end
-			waitFor(xJoinWait, func() bool { return r.t.QueueSize() <= 0 })
+			if !waitFor(xJoinWait, func() bool { return r.t.QueueSize() <= 0 }) {
+				break // the queue never drains: finish reports it
+			}
 			time.Sleep(iv)
 		}
 	}
